@@ -62,6 +62,10 @@ CLAIMED = {
          "Exploration. Generated units (versions 2-5 x formats x address sizes x byte orders x low_pc absent/zero/non-zero) with several lists incl. duplicates and boundary entries are written and read back through attr_ranges/attr_locations: the resolved ranges and per-range expressions must equal the model's resolution of the request; equal lists must share an id and exactly one emitted copy; lists that are not representable unambiguously (empty ranges, offset pairs without / address pairs with a base, default location pre-v5, begin = base-selection marker, begin + length overflow, values wider than the address size) must be refused.",
          "Trusts the resolution model in harness/src/c08.rs (itself compared against gimli's reader on assembler-built lists in C08). An offset pair under a zero low_pc may be refused.",
          "DESIGN.md §4 C16"),
+ 'C12': ("proptest random assembler-built frame sections and line programs (in a one-entry unit) converted with FrameTable::from / Dwarf::from / the stepwise convert API, written and read back; metamorphic oracle: semantic dump (unwind rows; line rows with resolved files, file table; entry forest with attribute meanings) before = after, or an error; second conversion reproduces the output",
+         "Exploration. (a) .debug_frame/.eh_frame with every call-frame instruction, boundary alignment factors/offsets/advances/ranges, pointer encodings; (b) line programs with every opcode incl. mid-sequence set_address, fixed_advance_pc, define_file, min_inst_len/max_ops > 1, tombstones, v2-5 headers with inline and section-string forms. Conversion + write must either return an error or produce DWARF whose dump equals the input's; converting the output again must reproduce it byte for byte. Panics and the writer's debug assertions count as violations (dev profile).",
+         "Observer on both sides is gimli's reader (compared against independent models in C02-C08). A line program without rows whose file table nothing refers to counts as absent. Forest conversion with indexed forms is exercised in C19's unfiltered run.",
+         "DESIGN.md §4 C12"),
 }
 NOT_YET = "check not built yet in this session (machinery is being extended property by property; see DESIGN.md §4)"
 
